@@ -578,3 +578,30 @@ Theorem C05_source_ref_columns : forall fa name fix_gc fix_rmask gc_first bins i
   Proofs.FnRefColumns.cell (block_gc fa fix_gc fix_rmask gc_first bins) i = fst r /\
   Proofs.FnRefColumns.cell (block_rmask fa fix_gc fix_rmask bins) i = snd r.
 Proof. exact Proofs.FnRefColumns.fn_ref_columns_eq. Qed.
+
+From CNV Require Proofs.FnRefFlatRow Proofs.FnRefBedRow.
+
+(* do_reference_flat's column code per row: log2 is the flat level, depth is np.exp2 OF THAT VALUE (spread stays 0) *)
+Theorem C05_source_flat_row : forall exp2 hap build targets antis fa (gs rs : bin -> Q),
+  let t := flat_table targets antis in
+  flat_reference exp2 hap build targets antis =
+  map (fun b => let row := Gen.FnRefFlatRow.fn_flat_row exp2 (flat_at hap build t b) fa (gs b) (rs b) in
+                mkRef (b_chrom b) (b_start b) (b_end b) (b_gene b)
+                      (Proofs.FnRefFlatRow.flat_row_log2 row) (Proofs.FnRefFlatRow.flat_row_depth row) 0) t.
+Proof. exact Proofs.FnRefFlatRow.fn_flat_row_eq. Qed.
+
+(* ... its gc / rmask columns exist exactly when a FASTA is given, and then hold the row's two FASTA statistics *)
+Theorem C05_source_flat_row_fasta : forall exp2 v fa g r,
+  snd (fst (Gen.FnRefFlatRow.fn_flat_row exp2 v fa g r)) = (if String.eqb fa "" then None else Some g) /\
+  snd (Gen.FnRefFlatRow.fn_flat_row exp2 v fa g r) = (if String.eqb fa "" then None else Some r).
+Proof. exact Proofs.FnRefFlatRow.fn_flat_row_fasta. Qed.
+
+(* bed2probes' column code per row: the spread of every row of the flat reference is the translated 0.0 *)
+Theorem C05_source_bed_row_spread : forall exp2 hap build targets antis g h r,
+  In r (flat_reference exp2 hap build targets antis) -> r_spread_sq r = qsq (snd (Gen.FnRefBedRow.fn_bed_row g h)).
+Proof. exact Proofs.FnRefBedRow.fn_bed_row_spread. Qed.
+
+Theorem C05_source_bed_row_gene : forall g h,
+  fst (fst (Gen.FnRefBedRow.fn_bed_row g h)) = (if h then g else "-"%string) /\
+  snd (fst (Gen.FnRefBedRow.fn_bed_row g h)) = 0.
+Proof. exact Proofs.FnRefBedRow.fn_bed_row_gene. Qed.
